@@ -246,3 +246,43 @@ Definition wf_geokeys_payload (p : list Z) : bool :=
   && Nat.eqb ((length p - gk_header_size) mod gk_entry_size) 0
   && (le_dec (firstn 2 (skipn (gk_header_size - 2) p)) =? Z.of_nat ((length p - gk_header_size) / gk_entry_size))
   && bytes_ok p.
+
+(* ------------------------------------------------------------------------------------ *)
+(* the dispatch the LAS specification (and laspy's documentation) prescribes, written by hand:
+   Proofs/KnownProofs.v shows that the generated table implements exactly this              *)
+(* ------------------------------------------------------------------------------------ *)
+Definition UID_LASF_Spec : list Z := [76; 65; 83; 70; 95; 83; 112; 101; 99].
+Definition UID_LASF_Projection : list Z := [76; 65; 83; 70; 95; 80; 114; 111; 106; 101; 99; 116; 105; 111; 110].
+Definition UID_laszip : list Z := [108; 97; 115; 122; 105; 112; 32; 101; 110; 99; 111; 100; 101; 100].
+Definition UID_copc : list Z := [99; 111; 112; 99].
+
+Definition class_spec (uid : list Z) (rid : Z) : option (string * Z) :=
+  if list_eqb UID_LASF_Spec uid then
+    if rid =? 0 then Some ("ClassificationLookupVlr"%string, 0)
+    else if rid =? 4 then Some ("ExtraBytesVlr"%string, 4)
+    else if (100 <=? rid) && (rid <=? 355) then Some ("WaveformPacketVlr"%string, 100)
+    else None
+  else if list_eqb UID_LASF_Projection uid then
+    if rid =? 34735 then Some ("GeoKeyDirectoryVlr"%string, 34735)
+    else if rid =? 34736 then Some ("GeoDoubleParamsVlr"%string, 34736)
+    else if rid =? 34737 then Some ("GeoAsciiParamsVlr"%string, 34737)
+    else if rid =? 2111 then Some ("WktMathTransformVlr"%string, 2111)
+    else if rid =? 2112 then Some ("WktCoordinateSystemVlr"%string, 2112)
+    else None
+  else if list_eqb UID_laszip uid then
+    if rid =? 22204 then Some ("LasZipVlr"%string, 22204) else None
+  else if list_eqb UID_copc uid then
+    if rid =? 1 then Some ("CopcInfoVlr"%string, 1)
+    else if rid =? 1000 then Some ("CopcHierarchyVlr"%string, 1000)
+    else None
+  else None.
+
+Definition class_eqb (a b : option (string * Z)) : bool :=
+  match a, b with
+  | None, None => true
+  | Some (c1, l1), Some (c2, l2) => String.eqb c1 c2 && (l1 =? l2)
+  | _, _ => false
+  end.
+
+Definition single_id_or_wave (row : string * list Z * Z * Z) : bool :=
+  let '(cls, _, lo, hi) := row in String.eqb cls "WaveformPacketVlr" || (lo =? hi).
